@@ -18,7 +18,7 @@ P = C02.P
 HE = "quantarhei/qm/liouvillespace/heom.py::"
 
 META = dict(
-    category="proof",
+    category="other",   # deductive proofs plus bounded stand-ins (labelled; not counted as proved)
     text=("Frame conditions are proved on the real code of the density-matrix propagation loops (__propagate_short_exp, "
           "__propagate_short_exp_with_relaxation with and without Lorentzian pure dephasing) and of the dispatcher "
           "ReducedDensityMatrixPropagator.propagate: every field, array cell and container reachable from the Hamiltonian, "
